@@ -322,6 +322,13 @@ func c03CheckOne(c *core.Ctx, idx int, pattern string, enumerated bool) {
 	if matchCase {
 		text = pattern + "$match-case,domain=example.org"
 	}
+	// A pattern of three characters or more may also stand alone, without any
+	// modifier; a '$' at the very end of such a text has nothing after it to
+	// delimit and is a literal like any other character.
+	alone := len(pattern) >= 3 && !strings.Contains(pattern[:len(pattern)-1], "$") && !strings.HasPrefix(pattern, "@@") && c.Rng.Intn(4) == 0
+	if alone {
+		text, matchCase = pattern, false
+	}
 	r, err := rules.NewNetworkRule(text, 1)
 	if err != nil {
 		c.Inconclusive("rule-rejected-by-parser")
@@ -333,9 +340,18 @@ func c03CheckOne(c *core.Ctx, idx int, pattern string, enumerated bool) {
 		wantPattern = wantPattern[:len(wantPattern)-2] + "^"
 	}
 	if rules.VerifPattern(r) != wantPattern {
+		if alone {
+			c.Violation("pattern-differs-from-the-text", nil, c03Witness{Rule: text, Pattern: pattern},
+				"rule %q (no modifiers) has the pattern %q, expected %q", text, rules.VerifPattern(r), wantPattern)
+
+			return
+		}
 		c.Inconclusive("pattern-not-expressible")
 
 		return
+	}
+	if alone {
+		c.Event("patterns_standing_alone", 1)
 	}
 	if r.IsRegexRule() {
 		c.Event("excluded_regex_shape", 1)
